@@ -179,7 +179,8 @@ class VM:
 
         # Exception handling
         self.exception: Optional[JSValue] = None
-        self.exception_handlers: List[Tuple[int, int]] = []  # (frame_idx, catch_ip)
+        # (frame_idx, catch_ip, operand stack depth when the try block was entered)
+        self.exception_handlers: List[Tuple[int, int, int]] = []
 
     def run(self, compiled: CompiledFunction) -> JSValue:
         """Run compiled bytecode and return result."""
@@ -732,7 +733,9 @@ class VM:
 
         elif op == OpCode.TRY_START:
             # arg is the catch handler offset
-            self.exception_handlers.append((len(self.call_stack) - 1, arg))
+            self.exception_handlers.append(
+                (len(self.call_stack) - 1, arg, len(self.stack))
+            )
 
         elif op == OpCode.TRY_END:
             if self.exception_handlers:
@@ -2569,11 +2572,14 @@ class VM:
                 exc.set("columnNumber", column)
 
         if self.exception_handlers:
-            frame_idx, catch_ip = self.exception_handlers.pop()
+            frame_idx, catch_ip, stack_depth = self.exception_handlers.pop()
 
             # Unwind call stack
             while len(self.call_stack) > frame_idx + 1:
                 self.call_stack.pop()
+
+            # Drop operands that were pending when the exception was thrown
+            del self.stack[stack_depth:]
 
             # Jump to catch handler
             frame = self.call_stack[-1]
